@@ -8,7 +8,7 @@
      insane-json Node.Dig / Node.Suicide    (only as far as the two plugins use them)
 
    A JSON value is  Leaf(code) | Obj(<< <<key, value>>, ... >>) (ORDERED, keys unique) | Arr(<< <<0, value>>, ... >>).
-   Key names are small integers (1 = a, 2 = b, 3 = "a.b", 4 = "a.b.a"); a selector is a sequence of key names,
+   Key names are small integers (1 = a, 2 = b, 3 = "a.b", 4 = "a.b.a", 5 = "b.a"); a selector is a sequence of key names,
    a configuration is a LIST of selectors (the user's `fields:` list).
 
    (i)   implementation-shaped part: ParseSel (ParseFieldSelector on characters), ImplNorm (ParseNestedFields),
@@ -129,6 +129,7 @@ Canon(v) == IF v.f = <<>> THEN v
 DOT == 0
 BS == 9
 KeyChars(k) == CASE k = 1 -> <<1>> [] k = 2 -> <<2>> [] k = 3 -> <<1, DOT, 2>> [] k = 4 -> <<1, DOT, 2, DOT, 1>>
+                 [] k = 5 -> <<2, DOT, 1>>
 RECURSIVE Escape(_)
 Escape(s) == IF s = <<>> THEN <<>>
              ELSE (IF Head(s) = DOT THEN <<BS, DOT>> ELSE <<Head(s)>>) \o Escape(Tail(s))
@@ -330,7 +331,7 @@ AllInv ==
        /\ PrintT("C18 " \o ToJson(ExportRec(d, list, k, r, mk, mr)))
 
 -----------------------------------------------------------------------------
-(* scopes.  Names: 1 = a, 2 = b, 3 = "a.b", 4 = "a.b.a".  A family is documents x selector lists. *)
+(* scopes.  Names: 1 = a, 2 = b, 3 = "a.b", 4 = "a.b.a", 5 = "b.a".  A family is documents x selector lists. *)
 AllLeaves == {1, 2, 3, 4, 5, 6}
 Fam(keys, K, N, leaves, pkeys, plen, sizes, ord, dup) ==
   [keys |-> keys, K |-> K, N |-> N, leaves |-> leaves, pkeys |-> pkeys, plen |-> plen, sizes |-> sizes, ord |-> ord, dup |-> dup]
@@ -347,7 +348,9 @@ QuickFams == <<
   Fam({1, 2, 3}, <<2, 1>>, 2, AllLeaves, {1, 2, 3}, 2, {2}, "desc", FALSE),
   \* 6, 7: wide objects over four names (two of them dotted): order of survivors, flat and nested selectors
   Fam({1, 2, 3, 4}, <<4, 2>>, 4, {1}, {1, 2, 3, 4}, 1, {1, 2, 3}, "both", FALSE),
-  Fam({1, 2, 3, 4}, <<4, 2>>, 4, {1}, {1, 2, 3, 4}, 2, {1, 2}, "asc", FALSE)
+  Fam({1, 2, 3, 4}, <<4, 2>>, 4, {1}, {1, 2, 3, 4}, 2, {1, 2}, "asc", FALSE),
+  \* 8: flat objects with up to 5 members (three dotted names), 1-3 one-element selectors: order after several deletions
+  Fam({1, 2, 3, 4, 5}, <<5>>, 5, {1}, {1, 2, 3, 4, 5}, 1, {1, 2, 3}, "both", FALSE)
 >>
 
 ThoroughFams == <<
@@ -358,6 +361,7 @@ ThoroughFams == <<
   Fam({1, 2, 3, 4}, <<4, 2>>, 4, {1}, {1, 2, 3, 4}, 2, {1, 2}, "both", FALSE),
   Fam({1, 2, 3, 4}, <<4, 2>>, 4, {1}, {1, 2, 3, 4}, 2, {3}, "asc", FALSE),
   \* three selectors over three names on the smallest documents (normalisation, parse, trie shapes)
-  Fam({1, 2, 3}, <<2, 2, 2>>, 3, {1}, {1, 2, 3}, 3, {3}, "desc", FALSE)
+  Fam({1, 2, 3}, <<2, 2, 2>>, 3, {1}, {1, 2, 3}, 3, {3}, "desc", FALSE),
+  Fam({1, 2, 3, 4, 5}, <<5>>, 5, {1}, {1, 2, 3, 4, 5}, 1, {1, 2, 3}, "both", FALSE)
 >>
 =============================================================================
